@@ -467,6 +467,18 @@ fn to_packet(q: &Req) -> Packet {
     }
 }
 
+/// the same request as an MQTT 5 client may send it: carrying (harmless) properties wherever the packet type has them
+fn with_v5_properties(p: Packet) -> Packet {
+    let up = || vec![("k".to_string(), "v".to_string())];
+    match p {
+        Packet::Publish(x, None) => Packet::Publish(x, Some(crate::protocol::PublishProperties { payload_format_indicator: None, message_expiry_interval: None, topic_alias: None, response_topic: None, correlation_data: None, user_properties: up(), subscription_identifiers: vec![], content_type: None })),
+        Packet::PubRel(x, None) => Packet::PubRel(x, Some(crate::protocol::PubRelProperties { reason_string: None, user_properties: up() })),
+        Packet::Subscribe(x, None) => Packet::Subscribe(x, Some(crate::protocol::SubscribeProperties { id: None, user_properties: up() })),
+        Packet::Unsubscribe(x, None) => Packet::Unsubscribe(x, Some(crate::protocol::UnsubscribeProperties { user_properties: up() })),
+        other => other,
+    }
+}
+
 const REQS: [Req; 10] = [Req::Pub2Dup(12), Req::Pub1(11), Req::Pub2(12), Req::Rel(12), Req::Sub(13, 1), Req::Sub(14, 3), Req::Unsub(15, true), Req::Unsub(16, false), Req::UnsubTwo(17), Req::Ping];
 
 // @native props=C06 tier=quick fn=Router::handle_device_payload+ack_device_data+consume
@@ -477,7 +489,8 @@ fn every_request_gets_exactly_one_reply_in_order() {
     let n = REQS.len() + 1;
     let mut cases = 0u64;
     let mut fail: Option<String> = None;
-    'outer: for batched in [true, false] {
+    'outer: for (batched, v5props) in [(true, false), (false, false), (true, true)] {
+        let to_packet = |q: &Req| if v5props { with_v5_properties(to_packet(q)) } else { to_packet(q) };
         for code in 0..n.pow(depth as u32) {
             let mut reqs = vec![];
             let mut c = code;
@@ -494,7 +507,7 @@ fn every_request_gets_exactly_one_reply_in_order() {
             let _ = drain(&mut r, &a);
             let _ = drain(&mut r, &other);
             if batched {
-                send(&mut r, &a, reqs.iter().map(to_packet).collect());
+                send(&mut r, &a, reqs.iter().map(|q| to_packet(q)).collect());
             } else {
                 for q in &reqs {
                     send(&mut r, &a, vec![to_packet(q)]);
@@ -513,7 +526,7 @@ fn every_request_gets_exactly_one_reply_in_order() {
             }
             let ok = if violated { got.len() <= exp.len() && got[..] == exp[..got.len()] } else { got == exp };
             if !ok {
-                fail = Some(format!("input=[requests={:?} batched={}] detail=[replies {:?}, expected {:?}]", reqs, batched, got, exp));
+                fail = Some(format!("input=[requests={:?} batched={} carrying MQTT 5 user properties={}] detail=[replies {:?}, expected {:?}]", reqs, batched, v5props, got, exp));
                 break 'outer;
             }
             if !stray.is_empty() {
@@ -522,7 +535,7 @@ fn every_request_gets_exactly_one_reply_in_order() {
             }
         }
     }
-    report(name, "C06", &format!("all sequences of {} requests over {} request kinds (QoS1/QoS2 publish, release, subscribe with 1 and 3 filters, unsubscribe of subscribed / never-subscribed / two filters, ping, QoS0), sent as one batch and one by one", depth, n), cases, fail);
+    report(name, "C06", &format!("all sequences of {} requests over {} request kinds (QoS1/QoS2 publish, release, subscribe with 1 and 3 filters, unsubscribe of subscribed / never-subscribed / two filters, ping, QoS0), sent as one batch, one by one, and as one batch with MQTT 5 user properties on every packet that can carry them", depth, n), cases, fail);
 }
 
 /// C06: a QoS 2 publish reaches subscribers only once released, and once per release
